@@ -249,9 +249,13 @@ pub fn apply_basic_runs(r: &BasicRule, w: &CW) -> RefOut {
             let (nb, nl) = match out { OutIt::Ipa(_, s) => (*s, 1), o => (o.apply(b, None), flat[j].2) };
             if (nb, nl) != (b, flat[j].2) { fired += 1; }
             flat[j].0 = nb; flat[j].2 = nl;
-            // equal neighbours inside a syllable would merge into one longer segment
-            if j > 0 && flat[j - 1].1 == flat[j].1 && flat[j - 1].0 == nb { return RefOut::SkipAdjacentEqual; }
-            if j + 1 < flat.len() && flat[j + 1].1 == flat[j].1 && flat[j + 1].0 == nb { return RefOut::SkipAdjacentEqual; }
+            // equal neighbours inside a syllable would merge into one longer segment: what an environment item then sees is not documented.
+            // A rule without context and exception looks at no neighbour: every segment of the word is rewritten on its own (the property's
+            // wording), whether or not the results happen to be equal
+            if !(r.context.is_empty() && r.except.is_empty()) {
+                if j > 0 && flat[j - 1].1 == flat[j].1 && flat[j - 1].0 == nb { return RefOut::SkipAdjacentEqual; }
+                if j + 1 < flat.len() && flat[j + 1].1 == flat[j].1 && flat[j + 1].0 == nb { return RefOut::SkipAdjacentEqual; }
+            }
         }
     }
     RefOut::Word(word_of_runs(w, &flat), fired)
@@ -276,7 +280,7 @@ pub fn apply_basic(r: &BasicRule, w: &CW) -> RefOut {
             let mut k = 0;
             'o: for sy in cur.iter_mut() { for s in sy.segs.iter_mut() { if k == j { *s = nb; break 'o; } k += 1; } }
             fired += 1;
-            if has_adjacent_equal(&cur) { return RefOut::SkipAdjacentEqual; }
+            if has_adjacent_equal(&cur) && !(r.context.is_empty() && r.except.is_empty()) { return RefOut::SkipAdjacentEqual; }
         }
     }
     RefOut::Word(cur, fired)
